@@ -270,7 +270,7 @@ def run(ctx):
                 "distinct non-trivial = distinct (class count, #methods, #fields, shared names, code-less, wide, interfaces) with >=2 classes")
     ctx.assumptions = ["vf/model/dexw.py implements the DEX format specification (self-checked: sorted/unique ids, offsets, checksums)",
                        "method descriptors are compared with spaces removed (androguard prints '(I J)V'); lookups use androguard's spaced form"]
-    n = 300 if ctx.quick else 8000
+    n = 300 if ctx.quick else 40000
     per = n // 16 + 1
     ctx.run_shards(MOD, "shard", [[i, per] for i in range(16)], timeout=3000)
     ctx.require_counter("DEX_parsed", 100)
